@@ -496,46 +496,37 @@ def _loop_of(f, block):
 def validation_loop_facts(P, f, vcall, frag_param, count_param):
     """-> dict(ok=bool, why=str, bound_exit=(src,dst), error_exits=[...]) for the loop around a per-fragment validation call"""
     from ..vflow import derived_pointers
-    L = _loop_of(f, vcall.bb)
-    if L is None:
+    from ..poly import PolyCtx, Poly
+    from ..loops import loops_of, innermost, affine_in_t
+    pc = PolyCtx(P, f)
+    LL = innermost(loops_of(P, f, pc), vcall.bb)
+    if LL is None:
         return None
-    h, body = L
+    h, body = LL.header, LL.body
     res = {'header': h, 'body': body, 'problems': []}
-    # induction variable and bound
-    t = h.insts[-1]
-    iv = None
-    if t.op == 'br' and len(t.targets) == 2 and t.ops:
-        c = f.defs.get(t.ops[0])
-        if c is not None and c.op == 'icmp' and c.pred in ('slt', 'ult'):
-            a, b = strip_int_casts(f, c.ops[0]), strip_int_casts(f, c.ops[1])
-            ad = f.defs.get(a)
-            if ad is not None and ad.op == 'phi' and ad.bb is h:
-                inc0 = any(v == '0' for v, l in ad.incoming if f.blocks[l] not in body)
-                step1 = False
-                for v, l in ad.incoming:
-                    if f.blocks[l] in body:
-                        d = f.defs.get(v)
-                        if d is not None and d.op == 'add' and a in d.ops and '1' in d.ops:
-                            step1 = True
-                if inc0 and step1 and b == f.params[count_param][1]:
-                    iv = a
-                    res['bound_exit'] = (h, f.blocks[t.targets[1]])
-                    if f.blocks[t.targets[1]] in body:
-                        res['problems'].append('bound exit stays in the loop')
-    if iv is None:
-        res['problems'].append('loop is not "for (i = 0; i < num_fragments; i++)" over the fragment count parameter')
+    # iteration space: a guard tested in the header whose trip count is the fragment count parameter
+    want = Poly.atom(f'arg{count_param}')
+    guard = None
+    for g in LL.guards():
+        if g.block is h and LL.trip(g) is not None and LL.trip(g) == want:
+            guard = g
+    if guard is None:
+        res['problems'].append('the loop does not run once per supplied fragment (no header guard with trip count num_fragments): '
+                               + '; '.join(f'{g.lhs} {g.pred} {g.bound} -> {LL.trip(g)} iterations' for g in LL.guards())[:160])
         return res
-    # argument of the validation call is fragments[i]
+    res['bound_exit'] = guard.exit_edge
+    # the validated value is fragments[t] in iteration t
     arg = strip_ptr_casts(f, vcall.ops[-1] if vcall.callee != '@is_invalid_fragment' else vcall.ops[1])
     d = f.defs.get(arg)
     okarg = False
     if d is not None and d.op == 'load':
-        g = f.defs.get(d.ops[0])
-        if g is not None and g.op == 'getelementptr' and strip_ptr_casts(f, g.ops[0]) == f.params[frag_param][1] \
-           and strip_int_casts(f, g.ops[1]) == iv:
-            okarg = True
+        pt = LL.ptr_at_iteration(*pc.ptr(d.ops[0]))
+        if pt is not None and pt[0] == f'arg{frag_param}':
+            ab = affine_in_t(pt[1])
+            if ab is not None and ab[0].is_zero() and ab[1] == Poly.const(8):
+                okarg = True
     if not okarg:
-        res['problems'].append('validated value is not fragments[i]')
+        res['problems'].append('validated value is not fragments[i] for i = 0 .. num_fragments-1')
     # exits
     vres = vcall.res
     err_edges = []
